@@ -14,6 +14,7 @@
 #include <sys/ioctl.h>
 #include <sys/mman.h>
 #include <sys/stat.h>
+#include <sys/time.h>
 #include <sys/wait.h>
 #include <ucontext.h>
 #include <unistd.h>
@@ -70,11 +71,8 @@ uint64_t Hash64(const void* p, size_t n, uint64_t seed) {
 uint32_t Tape::Raw(int stream) {
   size_t& p = pos[stream];
   std::vector<uint32_t>& v = rec[stream];
-  if (replay) {
-    uint32_t r = p < v.size() ? v[p] : 0;
-    p++;
-    return r;
-  }
+  if (p < v.size()) return v[p++];   // re-reading (probe runs rewind a stream)
+  if (replay) { p++; return 0; }
   auto it = rng.find(stream);
   if (it == rng.end()) {
     uint64_t s = seed ^ (0xa0761d6478bd642full * (uint64_t)(stream + 1));
@@ -642,6 +640,20 @@ static void SegvHandler(int sig, siginfo_t* si, void*) {
   _exit(70);
 }
 
+// Per-run CPU watchdog: simulated code that loops without making a syscall
+// (e.g. a corrupted container in ninja) cannot be stopped by the syscall budget.
+static void WatchdogHandler(int) {
+  const char msg[] = "WORKER-CRASH watchdog: run exceeded its CPU budget (loop without syscalls)\n";
+  if (write(2, msg, sizeof msg - 1)) {}
+  _exit(71);
+}
+void ArmWatchdog(int seconds) {
+  struct itimerval it;
+  memset(&it, 0, sizeof it);
+  it.it_value.tv_sec = seconds;
+  setitimer(ITIMER_VIRTUAL, &it, nullptr);
+}
+
 void GlobalInit() {
   static bool done = false;
   if (done) return;
@@ -656,6 +668,11 @@ void GlobalInit() {
   mprotect(g_stack, 4096, PROT_NONE);
   g_stack += 4096;
   std::set_terminate(TerminateHandler);
+  {
+    struct sigaction wa; memset(&wa, 0, sizeof wa);
+    wa.sa_handler = WatchdogHandler;
+    RealSigaction(SIGVTALRM, &wa, nullptr);
+  }
 #if !SIM_ASAN
   static char alt[1 << 16];
   stack_t ss; ss.ss_sp = alt; ss.ss_size = sizeof alt; ss.ss_flags = 0;
@@ -730,6 +747,7 @@ static ProcResult RunProcess(Kernel* k, const ProcSpec& spec, SpawnHandler* h, s
   p->doomed = true;  // cookie callbacks triggered by fclose must do nothing
   for (FILE* f : open) { __fpurge(f); fclose(f); }
   p->doomed = false;
+  if (k->on_proc_exit) k->on_proc_exit();
   bool finish = crashed ? spec.faults.orphans_finish : true;
   if (p->res.end == ProcResult::kHang || p->res.end == ProcResult::kBudget) finish = false;
   FinishOrphans(k, finish);
@@ -1390,7 +1408,11 @@ int __wrap_sigaction(int sig, const struct sigaction* act, struct sigaction* old
   SysEnter('A');
   if (sig <= 0 || sig > 64) { errno = EINVAL; return -1; }
   if (old) *old = P->handlers[sig];
-  if (act) P->handlers[sig] = *act;
+  if (act) {
+    P->handlers[sig] = *act;
+    // POSIX: setting the action to SIG_IGN discards a pending signal
+    if (!(act->sa_flags & SA_SIGINFO) && act->sa_handler == SIG_IGN) P->pending &= ~(1ull << sig);
+  }
   return 0;
 }
 
